@@ -7,6 +7,8 @@ import (
 	"strings"
 	"time"
 
+	"golang.org/x/tools/go/ssa"
+
 	"verif/sa/engine"
 	"verif/sa/rules"
 )
@@ -63,10 +65,14 @@ func main() {
 				fmt.Fprintln(os.Stderr, err)
 				continue
 			}
-			f.WriteTo(os.Stdout)
-			for _, a := range f.AnonFuncs {
-				a.WriteTo(os.Stdout)
+			var dump func(f *ssa.Function)
+			dump = func(f *ssa.Function) {
+				f.WriteTo(os.Stdout)
+				for _, a := range f.AnonFuncs {
+					dump(a)
+				}
 			}
+			dump(f)
 		}
 	default:
 		fmt.Fprintln(os.Stderr, "unknown command")
